@@ -31,14 +31,20 @@ fn st_of(s: FrameStatus) -> St {
 /// Compare the handle's committed frame table and contents with `model.frames`.
 /// Returns (mismatches, frames compared).
 pub fn diff_model(mem: &mut Memvid, model: &Model, ro: bool, at: &str) -> (Vec<Mis>, u64) {
+    diff_model_ext(mem, model, ro, at, false)
+}
+
+/// `allow_extra`: frames beyond the model's table are tolerated (durability checks: an
+/// un-acknowledged operation may have left something behind; what was acknowledged must be there).
+pub fn diff_model_ext(mem: &mut Memvid, model: &Model, ro: bool, at: &str, allow_extra: bool) -> (Vec<Mis>, u64) {
     let mut compared = 0u64;
         let mut out: Vec<(Vec<&'static str>, &'static str, String)> = Vec::new();
         let n_real = mem.frame_count();
         let n_model = model.frames.len();
-        if n_real != n_model {
+        if n_real != n_model && !(allow_extra && n_real > n_model) {
             out.push((vec!["C01", "C06"], "frame-count", format!("[{at}] frame_count()={n_real}, model has {n_model} committed frames")));
         }
-        if !ro {
+        if !ro && !allow_extra {
             let nf = mem.next_frame_id();
             let exp = model.next_id();
             if nf != exp {
